@@ -14,7 +14,7 @@ PROPS = {
 }
 
 SCHED_ASSUME = [
-    "task::Runner is the trusted boundary (threads + channel): start/wait/can_start_more/is_running carry assumed contracts over the abstract sets started/live; the counter arithmetic of their real bodies is verified separately (unit task)",
+    "task::Runner is the trusted boundary (threads + channel): start/wait/can_start_more/is_running carry assumed contracts over the abstract sets started/live; the counter arithmetic of their real bodies is verified in unit task (see there)",
     "Work::check_build_dirty / record_finished / create_parent_dirs are stubs in unit sched (frame contracts); their bodies are the subject of unit dirty",
     "ASSUMED in BuildStates::get_pool: `&mut String == &str` is string equality (no vstd spec), and unyielded IterMut elements stay unmodified on early return (also in pop_queued)",
     "HashSet<BuildId> in Work::ready_dependents is modelled by a wrapper whose iteration yields each element exactly once in arbitrary order",
@@ -22,23 +22,31 @@ SCHED_ASSUME = [
     "derive(PartialEq) on BuildState/BuildId/FileId is structural equality; std::mem::replace spec; Vec length <= usize::MAX",
     "commands terminate (Runner::wait returns); -k >= 1 (failures_left != Some(0)) is a precondition of Work::run",
 ]
+TASK_ASSUME = ("unit task: the real bodies of Runner::{new,can_start_more,is_running,start,wait} and ThreadIds::{claim,release} are verified: can_start_more == (running < parallelism), start/wait change `running` by exactly one without overflow/underflow, "
+    "slot indices are in range (wait never panics); TRUSTED representation axiom rs::ax_runner_repr: |live| == running and par == parallelism (which thread runs what cannot be stated over fields); the spawned closure of Runner::start is kept (thread::spawn, Instant::now, channel send/recv are stubs): "
+    "it is proved to label its completion with the id/tid of its start call and to report an error outside the process as Termination::Failure; run_task is proved to pass the command's termination on unchanged, to read the depfile only after Success and to report exactly what read_depfile returned, to filter /showIncludes lines whatever the outcome; "
+    "R23: run_task's call of process::run_command with its output-collecting closure (captures two mutable references, unsupported) is replaced by one opaque call that may change `output` arbitrarily -- that closure body is not verified; read_depfile and write_rspfile are stubs (iterator adapters / fs)")
+PROC_ASSUME = ("unit proc: process_posix::run_command returns the decoding (exit status 0 -> Success, SIGINT -> Interrupted, anything else -> Failure) of the status "
+    "waitpid stored for the child it spawned, over a TRUSTED libc shim (waitpid, W* helpers uninterpreted except exited/signaled exclusive) and the documented unix meaning of "
+    "ExitStatus::{from_raw,success,signal,code}; R22: the spawn block (pipe2/posix_spawn, raw pointers) is replaced by one opaque call and is not verified; the read loop is not shown to terminate "
+    "(it ends when the child closes the pipe); task::run_task (closure capturing a mutable reference) passes this value on unverified")
 PROPS["C01"] = {
-    "units": ["sched"],
-    "probes": {"sched": ["work::Work::run", "work::BuildStates::want_build", "work::Work::ready_dependents"]},
+    "units": ["sched", "proc", "task"],
+    "probes": {"sched": ["work::Work::run", "work::BuildStates::want_build", "work::Work::ready_dependents"], "proc": ["process_posix::run_command"], "task": ["task::run_task", "task::Runner::start"]},
     "level": "proof",
-    "assumptions": SCHED_ASSUME + ["'unless the manifest was regenerated and reloaded': the started set belongs to one Runner/Work; a new Work is only built after load::read (unit run, C17)"],
+    "assumptions": SCHED_ASSUME + [PROC_ASSUME, TASK_ASSUME, "'unless the manifest was regenerated and reloaded': the started set belongs to one Runner/Work; a new Work is only built after load::read (unit run, C17)"],
 }
 PROPS["C04"] = {
-    "units": ["sched"],
-    "probes": {"sched": ["work::Work::run", "work::BuildStates::pop_queued", "work::BuildStates::enqueue"]},
+    "units": ["sched", "task"],
+    "probes": {"sched": ["work::Work::run", "work::BuildStates::pop_queued", "work::BuildStates::enqueue"], "task": ["task::Runner::can_start_more", "task::Runner::start", "task::Runner::wait"]},
     "level": "proof",
-    "assumptions": SCHED_ASSUME + ["|live| of the abstract Runner equals the real `running` counter (both change by one in start/wait); BuildStates::new (built-in unlimited \"\" pool and `console`, declared pools present, everything fresh) and Work::new (establishes Work::run's preconditions) are under contract; that the depth value parsed by parse::read_pool is the number written in the manifest is not (str::parse is trusted)"],
+    "assumptions": SCHED_ASSUME + [TASK_ASSUME, "|live| of the abstract Runner equals the real `running` counter (both change by one in start/wait); BuildStates::new (built-in unlimited \"\" pool and `console`, declared pools present, everything fresh) and Work::new (establishes Work::run's preconditions) are under contract; that the depth value parsed by parse::read_pool is the number written in the manifest is not (str::parse is trusted)"],
 }
 PROPS["C05"] = {
-    "units": ["sched", "run"],
-    "probes": {"sched": ["work::Work::run", "work::Work::recheck_ready"], "run": ["run::build", "run::run_impl"]},
+    "units": ["sched", "run", "proc", "task"],
+    "probes": {"sched": ["work::Work::run", "work::Work::recheck_ready"], "run": ["run::build", "run::run_impl"], "proc": ["process_posix::run_command"], "task": ["task::run_task", "task::Runner::start"]},
     "level": "proof",
-    "assumptions": SCHED_ASSUME + ["decoding of the wait status into Termination (process_posix.rs, FFI) is not verified", "unit run: build returns Ok(None) only after a Work::run that returned false, Ok(Some) only directly after one that returned true; run_impl maps None -> 1 (silently), Some -> 0 after the summary; main.rs (Err -> 1) is outside any contract",
+    "assumptions": SCHED_ASSUME + [PROC_ASSUME, TASK_ASSUME, "unit run: build returns Ok(None) only after a Work::run that returned false, Ok(Some) only directly after one that returned true; run_impl maps None -> 1 (silently), Some -> 0 after the summary; main.rs (Err -> 1) is outside any contract",
                     "liveness clause ('every wanted step not downstream of a failure is still brought up to date') is not decided"],
 }
 PROPS["C06"] = {
@@ -139,21 +147,22 @@ PROPS["C03"] = {
 }
 PROPS["C09"] = {
     "units": ["dirty", "task"],
-    "probes": {"dirty": ["work::Work::record_finished", "work::Work::check_build_files_missing", "hash::build_manifest"], "task": ["task::extract_showincludes"]},
+    "probes": {"dirty": ["work::Work::record_finished", "work::Work::check_build_files_missing", "hash::build_manifest"], "task": ["task::extract_showincludes", "task::run_task"]},
     "level": "proof",
     "assumptions": DIRTY_ASSUME + ["'discovered dependencies never change build order' is decided in unit sched (readiness is computed from ordering_ins only; tagged C01); persistence across invocations is unit db (C08: write_build/read_build carry the discovered list)",
-        "unit task: extract_showincludes is proved to return as shown output exactly the lines that are not `Note: including file: ` lines, in order (si::shown over the trusted slice::split / strip_prefix / ends_with / to_vec wrappers), one reported name per note line, and never to panic on its [start..end] slice; run_task (process::run_command is FFI) and read_depfile (iterator adapters) are NOT under contract: that the report handed to record_finished is what the depfile says is not decided",
+        "unit task: extract_showincludes is proved to return as shown output exactly the lines that are not `Note: including file: ` lines, in order (si::shown over the trusted slice::split / strip_prefix / ends_with / to_vec wrappers), one reported name per note line, and never to panic on its [start..end] slice; " + TASK_ASSUME + "; read_depfile (iterator adapters) is NOT under contract: that the list it returns is what the depfile says is decided only up to depfile::parse (unit scan, C15)",
         "two spellings of one file map to one FileId through canonicalize_path (C13) + the trusted name->id map; here canon is an uninterpreted function"],
 }
 
 PROPS["C20"] = {
-    "units": ["render"],
-    "probes": {"render": ["progress_fancy::task_message", "progress_fancy::truncate", "progress_fancy::progress_bar", "progress::build_message", "terminal::unix::get_cols"]},
+    "units": ["render", "task"],
+    "probes": {"render": ["progress_fancy::task_message", "progress_fancy::truncate", "progress_fancy::progress_bar", "progress::build_message", "terminal::unix::get_cols"], "task": ["task::find_last_line"]},
     "level": "proof",
     "assumptions": [
         "TRUSTED byte model of str/String (R9 wrappers, render.pre.rs): len, is_char_boundary (defined on the utf-8 bytes exactly as core does), &s[..n] and String::truncate panic unless n is a boundary, push/push_str/repeat append the encodings, an ASCII char encodes to one byte; utf-8 encoding itself is uninterpreted",
         "format!(\" ({}s)\", seconds) is an opaque String of arbitrary length (R4): the width bound therefore holds for every elapsed time, not only up to 10^6 s",
         "progress_bar's precondition total * (bar_size + 1) <= usize::MAX holds at its only call site (bar_size 40, counts bounded by the number of builds < 2^32 by C19's count_inv) but print_progress itself -- mutex, debounce thread, write! to the pending buffer -- is not under contract (terminal::unix::get_cols IS: over a libc shim (winsize struct, opaque ioctl) it returns Some(c) only for c >= 10): 'a rendering problem never aborts the build' is decided only as 'these three functions never panic and terminate'",
+        "unit task: task::find_last_line (called in the task thread for every chunk of output) is proved never to panic and to return a sub-slice of the buffer without line breaks, for every byte string (R6: rposition as an explicit backwards scan)",
         "R19: the `for (count, ch) in [..3 tuples..]` loop of progress_bar is unrolled; dumb/other Progress implementations are not covered",
     ],
 }
